@@ -9,9 +9,57 @@ the Spec's verdict on what it really saw.
 namespace Pandora.Drv.C09
 open Pandora.Drv Pandora.Model.C09 Pandora.Spec.C09
 
-def unhex (s : String) : Option Str := (parseHex s).map fun bs => bs.map UInt8.toNat
+def unhexPlain (s : String) : Option Str := (parseHex s).map fun bs => bs.map UInt8.toNat
 
-def hex (s : Str) : String := toHex (s.map UInt8.ofNat)
+/-- one segment of the run-length hex of the line protocol: plain hex, or `<n>*<hex>` = n copies -/
+def unhexSeg (s : String) : Option Str :=
+  match s.splitOn "*" with
+  | [h] => unhexPlain h
+  | [n, h] => do
+    let k ← n.toNat?
+    let b ← unhexPlain h
+    pure (match b with
+      | [c] => List.replicate k c
+      | _ => (List.replicate k b).flatten)
+  | _ => none
+
+/-- segments joined by `_` (harness/cmd/c09 `hx`) -/
+def unhex (s : String) : Option Str :=
+  if s.isEmpty then some []
+  else ((s.splitOn "_").mapM unhexSeg).map List.flatten
+
+def hex2 (c : Nat) : String := String.ofList [hexOfNat4 (c / 16 % 16), hexOfNat4 (c % 16)]
+
+def pushN (s : String) : Nat → List String → List String
+  | 0, acc => acc
+  | n + 1, acc => pushN s n (s :: acc)
+
+/-- state of the run-length rendering: the pending run, the plain segment so far (two hex digits per element, newest
+first), the finished segments (newest first) -/
+structure RleSt where
+  cur : Nat := 0
+  cnt : Nat := 0
+  plain : List String := []
+  out : List String := []
+
+def RleSt.flushPlain (st : RleSt) : RleSt :=
+  if st.plain.isEmpty then st
+  else { st with out := String.join st.plain.reverse :: st.out, plain := [] }
+
+/-- the pending run goes to the output: a run of 16 or more equal bytes as `<n>*<hh>`, a shorter one into the plain segment -/
+def RleSt.flushRun (st : RleSt) : RleSt :=
+  if st.cnt = 0 then st
+  else if st.cnt ≥ 16 then
+    let st := st.flushPlain
+    { st with out := (toString st.cnt ++ "*" ++ hex2 st.cur) :: st.out, cnt := 0 }
+  else { st with plain := pushN (hex2 st.cur) st.cnt st.plain, cnt := 0 }
+
+/-- hex with run-length segments, exactly as the harness renders it (`hx`) -/
+def hex (s : Str) : String :=
+  let st := s.foldl (fun (st : RleSt) c =>
+    if st.cnt ≠ 0 ∧ st.cur = c then { st with cnt := st.cnt + 1 }
+    else { st.flushRun with cur := c, cnt := 1 }) {}
+  String.intercalate "_" st.flushRun.flushPlain.out.reverse
 
 structure Case where
   f : Format
@@ -36,6 +84,11 @@ structure Case where
   mich : Option Int := none
   /-- tls-handshake-timeout: `none` = not given (hs=def); the harness gives 20s unless the case says otherwise -/
   hs : Option Int := some 20000
+  /-- round 3: shared-client (0 = off, n = client-number), `redirect: true`, the target redirects, the provider's limit -/
+  shared : Nat := 0
+  redir : Bool := false
+  rspRedir : Bool := false
+  lim : Nat := 0
 
 def parseFormat : String → Option Format
   | "uri" => some .uri
@@ -91,7 +144,8 @@ def parseCase (kv : List (String × String)) : Option Case := do
          gun := gun, pre := getS kv "pre" == "1", par := getS kv "mode" == "par", sched := sched,
          gap := (getS kv "gap").toNat?.getD 0, delay := (getS kv "delay").toNat?.getD 0,
          idle := ← optInt kv "idle", rht := ← optInt kv "rht", mic := ← optInt kv "mic", mich := ← optInt kv "mich",
-         hs := hs }
+         hs := hs, shared := (getS kv "shared").toNat?.getD 0, redir := getS kv "redir" == "1",
+         rspRedir := getS kv "rsp" == "redir", lim := (getS kv "lim").toNat?.getD 0 }
 
 def parseRecHdr (s : String) : Option (Str × List Str) :=
   match s.splitOn ":" with
@@ -225,15 +279,23 @@ def handleRun (c : Case) (impl : String) : String × String :=
     -- import.go: the pre-resolved address is an address OF the target (observed: everything arrives there / tun=ok);
     -- Host defaulting uses the configured target
     let g : Gun := factory c.gun c.ssl true (c.tgt != "localhost") .fails (targetOf c.tgt)
-    let (reqs, st) := provide c.pre c.f confH c.items c.passes
+    if c.f = .jsonarr ∧ (provide c.pre c.f confH c.items c.passes).2 = .err then ("-", "skip:array-construct-error") else
+    let (reqs, st) := provideLim c.pre c.f confH c.items c.passes c.lim
     if st = .panic then ("PANIC model", "fail:panic:model predicts a panic in EnrichRequestWithHeaders") else
-    if c.f = .jsonarr ∧ st = .err then ("-", "skip:array-construct-error") else
+    -- shared clients serve several instances: with parallel shooting the transport's own pool (two idle connections per host)
+    -- and the scheduler decide; followed redirects: the http2 gun refuses the plain decoy's answer, the connect gun asks its
+    -- tunnel end for the decoy
+    if c.shared ≠ 0 ∧ c.par then ("-", "skip:shared-client-parallel") else
+    if c.redir ∧ c.rspRedir ∧ c.gun ≠ .http then ("-", "skip:followed-redirect-through-h2-or-tunnel") else
     let shots := reqs.map (shoot g)
     let names := (confH.map (·.1)) ++ (shots.flatMap fun s => s.header.map (·.1))
     if c.gun = .http2 ∧ names.any isH2Awkward then ("-", "skip:h2-connection-specific-or-cookie-header") else
     if !(shots.all connInGrammar) then ("-", "skip:connection-header-outside-grammar") else
     let arrived := shots.map fun s => sendable s && (c.srvTls == c.ssl)
     let gunsOf := (List.range shots.length).map (gunOf c.inst c.sched)
+    -- shared-client: the transports are the pool's clients, the k-th gun uses client (k+1) % client-number
+    let gunsOf := if c.shared ≠ 0 then gunsOf.map (clientOf c.shared) else gunsOf
+    let pools := if c.shared ≠ 0 then max c.shared 1 else c.inst
     let pauses := pausesFrom (c.gap * 1000000) c.par (gunsOf.zip arrived) 0 []
     let flights := ((shots.zip arrived).zip (gunsOf.zip pauses)).map fun (p, gp) =>
       ({ gun := gp.1, arrived := p.2, close := p.1.close, pause := gp.2, delay := c.delay * 1000000 } : TFlight)
@@ -248,7 +310,7 @@ def handleRun (c : Case) (impl : String) : String × String :=
     let arrivedShots := (shots.zip arrived).filterMap fun p => if p.2 then some p.1 else none
     let rendered := arrivedShots.map (renderShot major)
     let rendered := if c.par then (sortKeyed (rendered.map fun r => (r, ()))).map (·.1) else rendered
-    let model := s!"n={arrivedShots.length} shots={shots.length} conns={tconnRun tr c.inst flights} run={if st = .ok then "ok" else "err"} tun={if c.gun = .connect then "ok" else "-"} decoy=0 tm=ok reqs={String.intercalate "|" rendered}"
+    let model := s!"n={arrivedShots.length} shots={shots.length} conns={tconnRun tr pools flights} run={if st = .ok then "ok" else "err"} tun={if c.gun = .connect then "ok" else "-"} decoy={decoyHits c.redir c.rspRedir arrivedShots.length} tm=ok reqs={String.intercalate "|" rendered}"
     let verdict :=
       if confH.any (fun kv => !tokenName kv.1 || !kv.2.all cleanValue) then "skip:malformed-option" else
       match wantsOfPass c conf (hostWithoutPort g.target) c.items [] with
@@ -258,6 +320,7 @@ def handleRun (c : Case) (impl : String) : String × String :=
         | none => s!"fail:crash:{impl.take 120}"
         | some o =>
           let wants := repeatList ws c.passes
+          let wants := if c.lim ≠ 0 then wants.take c.lim else wants
           -- par mode: the recorded requests are reported sorted; align the expectations the same way
           let wants := if c.par ∧ wants.length = shots.length then
               (sortKeyed ((shots.map (renderShot major)).zip wants)).map (·.2)
@@ -266,7 +329,7 @@ def handleRun (c : Case) (impl : String) : String × String :=
           let maxPause := arrivedFl.foldl (fun m f => max m f.pause) 0
           let maxDelay := if arrivedFl.isEmpty then 0 else c.delay * 1000000
           let ro : ReuseOpts := { idle := c.idle.map (· * 1000000), rht := c.rht.map (· * 1000000), mic := c.mic, mich := c.mich }
-          judge wants (c.srvTls == c.ssl) c.ka c.inst o (reuseExpected ro maxPause maxDelay)
+          judge wants (c.srvTls == c.ssl) c.ka c.inst o (reuseExpected ro maxPause maxDelay) c.redir
     (model, verdict)
 
 def handle : Handler := fun input impl =>
